@@ -79,5 +79,5 @@ func bigLogandc1(b1, b2 *big.Int) slip.Object {
 	c1 := complement((*slip.Bignum)(b1)).(*slip.Bignum)
 	bi.And((*big.Int)(c1), b2)
 
-	return (*slip.Bignum)(&bi)
+	return reduceInteger(&bi)
 }
